@@ -68,6 +68,7 @@ type Config struct {
 
 // Sched is one run's scheduler.
 type Sched struct {
+	unlockYields bool // this run: Unlock/RUnlock are scheduling points
 	mu      sync.Mutex
 	cfg     Config
 	byGoid  map[int64]*G
@@ -274,6 +275,9 @@ func Run(cfg Config, main func()) *Sched {
 	if cfg.PreemptMax > 0 {
 		s.preemptPermille = []int{0, 0, 2, 20}[s.ch.intn("cfg", 4)]
 	}
+	// In half of the runs releasing a lock is a scheduling point too: another goroutine may run between a
+	// critical section and the lock-free code that uses what was read in it (check-then-act across an unlock).
+	s.unlockYields = s.ch.intn("cfg", 2) == 1
 	root := &G{id: "0", wake: make(chan struct{}), state: parked, kind: "start"}
 	s.all = append(s.all, root)
 	s.spawn(root, main)
@@ -727,12 +731,22 @@ func MLock(m *sync.Mutex) {
 }
 
 func MUnlock(m *sync.Mutex) {
-	if s := S; s != nil {
+	s := S
+	if s != nil {
 		s.mu.Lock()
 		delete(s.held, m)
 		s.mu.Unlock()
 	}
 	m.Unlock()
+	afterUnlock(s)
+}
+
+// afterUnlock: a possible switch right after a lock was released (see unlockYields).
+func afterUnlock(s *Sched) {
+	if s == nil || !s.unlockYields || s.dying {
+		return
+	}
+	pre("unlocked", nil)
 }
 
 func RWLock(m *sync.RWMutex) {
@@ -752,12 +766,14 @@ func RWLock(m *sync.RWMutex) {
 }
 
 func RWUnlock(m *sync.RWMutex) {
-	if s := S; s != nil {
+	s := S
+	if s != nil {
 		s.mu.Lock()
 		s.rwOf(m).writer = nil
 		s.mu.Unlock()
 	}
 	m.Unlock()
+	afterUnlock(s)
 }
 
 func RWRLock(m *sync.RWMutex) {
@@ -777,12 +793,14 @@ func RWRLock(m *sync.RWMutex) {
 }
 
 func RWRUnlock(m *sync.RWMutex) {
-	if s := S; s != nil {
+	s := S
+	if s != nil {
 		s.mu.Lock()
 		s.rwOf(m).readers--
 		s.mu.Unlock()
 	}
 	m.RUnlock()
+	afterUnlock(s)
 }
 
 func WGWait(w *sync.WaitGroup) { pre("wgwait", nil); w.Wait(); post("wgwait") }
